@@ -267,7 +267,7 @@ def run_c_program(outs, *, sizes_list=(None,), on_node=None, valuations=None,
                     bad = f"shape {g.shape} vs numpy {r.shape}"
                 if bad:
                     sig = {"kind": "wrong-value", "root": _root_sig(t)}
-                    mixed = c_promotion_narrower(t)
+                    mixed = c_promotion_narrower(t, EINSUM_LIKE)      # (the operations whose operands are printed without casts)
                     if mixed is not None and values.compare(g, r, scale=ev.scale, nred=ev.nred, check_dtype=False,
                                                             min_eps=float(np.finfo(np.float32).eps)) is None:
                         # right to float32 precision, and an operation mixes >=32-bit integers with float32 (NumPy: float64)
@@ -351,13 +351,18 @@ def dtype_deviation(term):
     return None
 
 
-def c_promotion_narrower(term):
+EINSUM_LIKE = ("einsum", "matmul", "dot", "vdot")
+
+
+def c_promotion_narrower(term, heads=None):
     """first sub-term (post-order) that combines an integer (>= 32 bit) operand with a float32 operand where NumPy's result
     type is float64: NumPy computes in float64, the C the operands are printed into computes in float (usual arithmetic
     conversions), unless something else in the printed expression happens to be a double.  None if there is none."""
     cache = {}
     for o in T.all_subterms(term):
         if T.is_scalar_term(o) or o[0] in ("ph", "dw", "dwv", "dwalias", "s", "a", "sp"):
+            continue
+        if heads is not None and o[0] not in heads:
             continue
         kids = [c for c in o[1:] if isinstance(c, list) and c and isinstance(c[0], str) and c[0] not in ("s", "a")
                 and not T.is_scalar_term(c)]
